@@ -447,6 +447,20 @@ func runC09(w *World, r *Report) {
 				r.Fail("R7", "getQuotaAllocationRatio/found-flag", posOf(alt.Ret), "found flag is %s, not decided by the header-value equality alone", Path(alt.Val))
 			case b:
 				ok := isEq(relsOfConds(alt.Conds)) && i < len(a0) && strings.HasSuffix(Path(a0[i].Val), "AllocationPercentage / 100)")
+				// ... and by nothing else: a listed group is found whatever its percentage (0 % is a share of 0)
+				for _, cd := range alt.Conds {
+					rel, isRel := NormCond(cd)
+					if isRel && isEq([]Rel{rel}) {
+						continue
+					}
+					if isRel && rel.Op == "<" && strings.Contains(Path(rel.R), "builtin.len(") {
+						continue // loop bound
+					}
+					if p := Path(cd.V); strings.HasPrefix(p, "next(range(") {
+						continue
+					}
+					ok = false
+				}
 				r.Check(ok, "R7", "getQuotaAllocationRatio/found", posOf(alt.Ret), "found=true under %s with ratio %s (want GroupHeaderValue == Headers[GroupBy.HeaderName], AllocationPercentage/100)", relsString(relsOfConds(alt.Conds)), Path(a0[i].Val))
 			default:
 				r.Check(!isEq(relsOfConds(alt.Conds)), "R7", "getQuotaAllocationRatio/not-found", posOf(alt.Ret), "found=false only after the loop without a match")
